@@ -124,6 +124,18 @@ CLAIMED["C10"] = dict(
     technique="Lean 4 theorems (allocation ledger bound, exact depth limit) + limit sweeps and allocation/stack meters on the real code",
     design="§5 C10")
 
+CLAIMED["C09"] = dict(
+    text="Lean 4 proofs over the value model of basic_json (a pool of values; arrays = sequences, objects = key-ordered association lists): frame rule "
+         "(an operation on one slot never changes another, so a copy shares nothing with its source), swap exchanges, self-assignment is the identity, "
+         "insert_or_assign / try_emplace / erase / merge are the finite-map operations and keep sorted unique keys, and the four int64/uint64 comparison "
+         "arms (C++ unsigned conversions written out) are exactly the order of the stored numbers. Tie: operation sequences over a pool of 4 json/ojson "
+         "values run through the real basic_json and the Lean model, compared result by result and slot by slot; every storage-kind pair from a catalogue "
+         "for the relational laws; explicit-storage integer pairs against the Lean compare; is<T>/as<T> on every width boundary.",
+    note="Partial: compare() beyond the integer arms (double, half, strings, tagged strings, containers) is checked against the relational laws on a "
+         "catalogue of all storage kinds, not proved. D6, D8, D31 (comparison defects) found and fixed; D7 (bignum strings compared through double) known.",
+    technique="Lean 4 theorems (frame rule, finite-map laws, integer order) + differential operation sequences against the Lean value model",
+    design="§5 C09")
+
 ALL = ["C%02d" % i for i in range(1, 21)]
 NOT_YET = "not claimed yet: the Lean model, theorems and correspondence harness for this property are still being built (see DESIGN.md §8 staging)"
 
